@@ -5,7 +5,6 @@
 package fbb
 
 import (
-	"bufio"
 	"bytes"
 
 	"github.com/paulrosania/go-charset/charset"
@@ -17,13 +16,31 @@ import (
 // CRLF line break is enforced.
 // Line break are inserted if a line is longer than 1000 characters (including CRLF).
 func StringToBody(str, encoding string) ([]byte, error) {
-	in := bufio.NewScanner(bytes.NewBufferString(str))
-	out := new(bytes.Buffer)
+	wrapped := wrapLines([]byte(str))
 
-	var err error
-	var line []byte
-	for in.Scan() {
-		line = in.Bytes()
+	translator, err := charset.TranslatorTo(encoding)
+	if err != nil {
+		return wrapped, err
+	}
+
+	_, translated, err := translator.Translate(wrapped, true)
+	return translated, err
+}
+
+// wrapLines enforces CRLF line breaks and inserts line breaks so that no line is
+// longer than 1000 bytes (including CRLF).
+func wrapLines(data []byte) []byte {
+	out := bytes.NewBuffer(make([]byte, 0, len(data)+len(data)/64+2))
+
+	for len(data) > 0 {
+		line := data
+		if i := bytes.IndexByte(data, '\n'); i >= 0 {
+			line, data = data[:i], data[i+1:]
+		} else {
+			data = nil
+		}
+		line = bytes.TrimSuffix(line, []byte{'\r'})
+
 		for {
 			// Lines can not be longer that 1000 characters including CRLF.
 			n := min(len(line), 1000-2)
@@ -37,14 +54,7 @@ func StringToBody(str, encoding string) ([]byte, error) {
 			}
 		}
 	}
-
-	translator, err := charset.TranslatorTo(encoding)
-	if err != nil {
-		return out.Bytes(), err
-	}
-
-	_, translated, err := translator.Translate(out.Bytes(), true)
-	return translated, err
+	return out.Bytes()
 }
 
 func min(a, b int) int {
